@@ -216,9 +216,11 @@ EGLPNUM_TYPENAME_QSLIB_INTERFACE int EGLPNUM_TYPENAME_QSopt_primal (
 	rval = check_qsdata_pointer (p);
 	CHECKRVALG (rval, CLEANUP);
 
-	/* If both the basis and the cache exist, then skip the optimization */
+	/* If both the basis and the cache exist, then skip the optimization;
+	 * a basis loaded since the last solve (factorok == 0) is not the one
+	 * the cached solution belongs to, so solve again from it (as QSopt_dual does) */
 
-	if (!p->basis || !p->cache)
+	if (!p->basis || !p->cache || !p->factorok)
 	{
 		rval = opt_work (p, status, 0);
 		CHECKRVALG (rval, CLEANUP);
